@@ -146,6 +146,39 @@ def materialise(ctx, path, valuation, objname):
     return items
 
 
+def imm_byte(ctx, item, valuation, objname):
+    """the byte string an ('imm', index expression, table name) item writes under this valuation; LookupError when the lookup
+    fails (no such key / index out of range)"""
+    mod = ctx.module(BRINE)
+    try:
+        tbl = ctx.folder.fold(ast.Name(id=item[2], ctx=ast.Load()), mod)
+    except Unfoldable as e:
+        raise AnalysisError("immediate table %s does not fold: %s" % (item[2], e))
+    try:
+        idx = safe_value(ctx, item[1], valuation, objname)
+    except CannotEval as e:
+        raise AnalysisError("index `%s` of the immediate table cannot be evaluated: %s" % (A.src(item[1]), e))
+    return tbl[idx]
+
+
+def imm_reference(ctx):
+    """{int: byte} the READER implements (inverse of IMM_INTS_LOADER), falling back to IMM_INTS when that is a dict"""
+    mod = ctx.module(BRINE)
+    try:
+        ld = ctx.folder.fold(ast.Name(id="IMM_INTS_LOADER", ctx=ast.Load()), mod)
+        if isinstance(ld, dict):
+            return {v: k for k, v in ld.items()}
+    except Unfoldable:
+        pass
+    try:
+        t = ctx.folder.fold(ast.Name(id="IMM_INTS", ctx=ast.Load()), mod)
+        if isinstance(t, dict):
+            return dict(t)
+    except Unfoldable:
+        pass
+    return None
+
+
 def _is_measured(expr, objname):
     return True
 
@@ -172,6 +205,9 @@ def _atom(ctx, e, valuation, objname):
             tbl = None
         if isinstance(tbl, dict) and isinstance(e.slice, ast.Name) and e.slice.id == objname:
             return ("imm", e.slice, A.dotted(e.value))
+        if isinstance(tbl, (dict, list, tuple)) and A.dotted(e.value) and "value" in valuation and any(
+                isinstance(x, ast.Name) and x.id == objname for x in ast.walk(e.slice)):
+            return ("imm", e.slice, A.dotted(e.value))     # an immediate table indexed by a function of the value
     try:
         v = safe_value(ctx, e, valuation, objname)
         if isinstance(v, bytes):
@@ -319,9 +355,9 @@ class DumpExec:
         caught = {A.dotted(x) for x in (h.type.elts if isinstance(h.type, ast.Tuple) else [h.type])} if h.type is not None else set()
         try:
             tbl = self.ctx.folder.fold(sub.value, self.mod)
-            ref = self.ctx.folder.fold(ast.Name(id="IMM_INTS", ctx=ast.Load()), self.mod)
         except Unfoldable:
             return None
+        ref = imm_reference(self.ctx)
         idx = sub.slice
         off = 0
         if isinstance(idx, ast.BinOp) and isinstance(idx.op, (ast.Add, ast.Sub)):
@@ -359,7 +395,9 @@ class DumpExec:
                                 "%s)" % (A.src(sub), len(wrong), wrong[-1], [k for k, v in ref.items() if v == mapping[wrong[-1]]][:1])
                                 if wrong else "`%s` misses immediate value(s) %s" % (A.src(sub), miss[:3]))
         obj = ast.Name(id=self.objname, ctx=ast.Load())
-        tname = ast.Name(id="IMM_INTS", ctx=ast.Load())
+        # the mapping the lookup implements, under a synthetic module-level name the folder knows
+        self.ctx.folder._cache[(self.mod.name, "__IMM_WRITER__")] = mapping
+        tname = ast.Name(id="__IMM_WRITER__", ctx=ast.Load())
         app = ast.Expr(value=ast.Call(func=b.value.func, args=[ast.Subscript(value=tname, slice=obj, ctx=ast.Load())], keywords=[]))
         new = ast.If(test=ast.Compare(left=obj, ops=[ast.In()], comparators=[tname]), body=[app], orelse=list(h.body))
         ast.copy_location(new, st)
